@@ -455,9 +455,9 @@ pub fn run(ctx: &Ctx) {
     let climit = 9usize;
     ctx.group("exhaustive-reader-hasher-memory", Source::Indexed { count: count_strings(lmax) }, |t, rec| exhaustive_case(t, rec, climit));
     ctx.note("exhaustive_scope", serde_json::json!(format!("all {} strings over {{CR,LF,x}} of length 0..={}, all chunkings", count_strings(lmax), lmax)));
-    let n = ctx.tier.pick(4000u64, 60000);
+    let n = ctx.tier.pick(4000u64, 600_000);
     ctx.group("long-buffer-edges", Source::Random { n, tape_len: 96 }, long_case);
-    let n = ctx.tier.pick(1500u64, 20000);
+    let n = ctx.tier.pick(1500u64, 200_000);
     ctx.group("message-builder-and-reader-digests", Source::Random { n, tape_len: 64 }, message_case);
     let l2 = ctx.tier.pick(5u32, 7);
     ctx.group("signature-invariance", Source::Indexed { count: count_strings(l2) }, invariance_case);
